@@ -75,6 +75,31 @@ def anchorAfterUncapturedSubtree (q : String) : Bool :=
     | [] => false
   go toks
 
+def dropCaps : List Tok → List Tok
+  | .cap _ :: rest => dropCaps rest
+  | ts => ts
+
+/-- `… _ [@c] ) [@c] . …`: the unnamed wildcard is the last child pattern of the sibling before an anchor. -/
+def anchorAfterNestedWildcard (q : String) : Bool :=
+  let toks := (tokenize (q.length + 1) q.toList #[]).toList
+  let rec go : List Tok → Bool
+    | .under :: rest =>
+      (match dropCaps rest with
+       | .rp :: r2 => (match dropCaps r2 with | .dot :: _ => true | _ => false)
+       | _ => false) || go rest
+    | _ :: rest => go rest
+    | [] => false
+  go toks
+
+/-- `[ … ] . …` with no capture on the alternation. -/
+def anchorAfterAlternation (q : String) : Bool :=
+  let toks := (tokenize (q.length + 1) q.toList #[]).toList
+  let rec go : List Tok → Bool
+    | .rb :: .dot :: _ => true
+    | _ :: rest => go rest
+    | [] => false
+  go toks
+
 def runCase (s : St) : String :=
   let tail := s!"compiled={s.compiled.getD false} haserror={s.hasError}"
   match buildVT s.nodes.toList with
@@ -105,7 +130,7 @@ def runCase (s : St) : String :=
         else if !quant && !completeB impl model then
           let bad := model.filter fun x => countOf x model > countOf x impl
           let subsumed := bad.all fun x => impl.any fun y => y.1 == x.1 && y != x && subBag x.2 y.2
-          let kind := if subsumed then "incomplete-subsumed" else if (s.query.splitOn "(MISSING").length > 1 then "incomplete-missing-uncaptured" else if (s.query.splitOn "(ERROR ").length > 1 then "incomplete-error-children-uncaptured" else if anchorAfterUncapturedSubtree s.query then "incomplete-anchor-after-uncaptured-subtree" else if anchorAfterUncaptured s.query then "incomplete-anchor-uncaptured" else "incomplete"
+          let kind := if subsumed then "incomplete-subsumed" else if anchorAfterNestedWildcard s.query then "incomplete-anchor-after-nested-wildcard" else if anchorAfterAlternation s.query then "incomplete-anchor-after-uncaptured-alternation" else if (s.query.splitOn "(MISSING").length > 1 then "incomplete-missing-uncaptured" else if (s.query.splitOn "(ERROR ").length > 1 then "incomplete-error-children-uncaptured" else if anchorAfterUncapturedSubtree s.query then "incomplete-anchor-after-uncaptured-subtree" else if anchorAfterUncaptured s.query then "incomplete-anchor-uncaptured" else "incomplete"
           s!"{s.id} judge=FAIL {kind} first={repr bad.head!} {info}"
         else s!"{s.id} judge=ok {info}"
       | _ =>
